@@ -51,6 +51,7 @@ def parseItems (s : String) : Src :=
     | 'z' :: r => List.replicate ((String.ofList r).toNat?.getD 0) (.byte 0)
     | 'f' :: '.' :: r => [.fault (kindOf (String.ofList r))]
     | ['t'] => [.term]
+    | ['i'] => [.idle]
     | _ => []
 
 def parseValid (s : String) : Nat → List Nat → Verdict :=
@@ -63,6 +64,7 @@ def showOutcome : Outcome → String
   | .parseErr => "parse"
   | .panic _ => "panic"
   | .terminated => "term"
+  | .pending => "pending"
 
 /-- `crash = some k`: the real `process_msg` panicked on the k-th accepted message (reported by
     the engine; the handler is a parameter of the model). The real counter `msgs` is incremented
@@ -71,7 +73,7 @@ def sessCase (v : Variant) (items valid : String) (crash : Option Nat) : String 
   let s := parseItems items
   let r := runLoop v (crashingHandler crash) (parseValid valid) s 0
   let fatal := match r.fin with | .fatal _ => 1 | _ => 0
-  let fin := match r.fin with | .panicked => "panic" | .fuel => "fuel" | _ => "done"
+  let fin := match r.fin with | .panicked => "panic" | .fuel => "fuel" | .waiting => "waiting" | _ => "done"
   let hc := if r.evs.any (fun e => match e with | .panic .handler => true | _ => false) then 1 else 0
   s!"ioerrs={countIoErrs r.evs - fatal} msgs={countMsgs r.evs + hc} rest={r.rest.length} end={fin}"
 
